@@ -16,13 +16,14 @@ use std::panic::{catch_unwind, AssertUnwindSafe};
 
 use solstat::analyzer::optimizations::{get_all_optimizations, Optimization};
 use solstat::analyzer::qa::{get_all_qa, QualityAssurance};
+use solstat::analyzer::utils::LineNumber; // whatever integer type the crate uses for line numbers
 use solstat::analyzer::vulnerabilities::{get_all_vulnerabilities, Vulnerability};
 use solstat::report::generation::generate_report;
 use solstat::report::optimization_report::generate_optimization_report;
 use solstat::report::qa_report::generate_qa_report;
 use solstat::report::vulnerability_report::generate_vulnerability_report;
 
-type Entries = Vec<(String, BTreeSet<i32>)>;
+type Entries = Vec<(String, BTreeSet<LineNumber>)>;
 
 fn unhex(s: &str) -> String {
     let b: Vec<u8> = (0..s.len() / 2)
@@ -145,7 +146,7 @@ fn run_case(c: &Case) -> Option<String> {
                 let mut q0 = HashMap::new();
                 let entries = |tag: &str| -> Entries {
                     (0..60)
-                        .map(|i| (format!("Earlier{}{}.sol", tag, i), (1..(3 + i % 5)).map(|x| x as i32 * 7 + i as i32).collect()))
+                        .map(|i| (format!("Earlier{}{}.sol", tag, i), (1..(3 + i % 5)).map(|x| (x as i64 * 7 + i as i64) as LineNumber).collect()))
                         .collect()
                 };
                 for p in get_all_vulnerabilities() {
@@ -206,7 +207,7 @@ fn main() {
                 let name = unhex(&tok[1..]);
                 let mut set = BTreeSet::new();
                 for t in it {
-                    set.insert(t.parse::<i32>().expect("line number"));
+                    set.insert(t.parse::<i64>().expect("line number") as LineNumber);
                 }
                 cur.as_mut()
                     .expect("file outside case")
